@@ -146,8 +146,20 @@ def n2_n4(repo, res, canon, logic, us):
     # the handle is the process of THIS task's do_work
     handles = {x[1] for lst in n4_sites.values() for x in lst if x[1]}
     for h in sorted(handles):
-        defs = [n for n in walk_no_nested(alloc.node) if isinstance(n, ast.Assign) and any(
-            isinstance(t, ast.Name) and t.id == h for t in n.targets)]
+        def _defs(name, seen):
+            out = []
+            for n in walk_no_nested(alloc.node):
+                if isinstance(n, ast.Assign) and any(isinstance(t, ast.Name) and t.id == name for t in n.targets):
+                    # a plain copy of another local (left by inlining a helper that returns the
+                    # handle) stands for that local's definitions
+                    if isinstance(n.value, ast.Name) and n.value.id not in seen and n.value.id != name:
+                        sub = _defs(n.value.id, seen | {name})
+                        if sub:
+                            out += sub
+                            continue
+                    out.append(n)
+            return out
+        defs = _defs(h, set())
         ok = True
         why = ''
         nonnull = 0
